@@ -76,17 +76,26 @@ type linkScenario struct {
 var errSkip = errors.New("verif-skip: operation outside the bounded universe")
 var errRet = errors.New("verif-return-mismatch")
 
-func newLinkWorld() *linkScenario {
+func newLinkWorld() *linkScenario { return newLinkWorldOpt(true) }
+
+// newLinkWorldOpt: with plain=false the two stores own NO plain link collection, only the ref-counted one.
+func newLinkWorldOpt(plain bool) *linkScenario {
 	sc := &linkScenario{}
 	// the field `bs` is the link collection seen from the entity: persisting it goes through PersistContext.SetLinkedIds
-	sc.A = world.NewStore(&world.Spec{EntityType: "as", BasePath: []string{"root"}, Fields: []world.Field{{Name: "label", Kind: world.KString}, {Name: "bs", Kind: world.KLinks}}})
+	aFields := []world.Field{{Name: "label", Kind: world.KString}}
+	if plain {
+		aFields = append(aFields, world.Field{Name: "bs", Kind: world.KLinks})
+	}
+	sc.A = world.NewStore(&world.Spec{EntityType: "as", BasePath: []string{"root"}, Fields: aFields})
 	sc.B = world.NewStore(&world.Spec{EntityType: "bs", BasePath: []string{"root"}, Fields: []world.Field{{Name: "label", Kind: world.KString}}})
 	sc.A.AddScalarSymbols()
 	sc.B.AddScalarSymbols()
-	symAB := sc.A.AddFkSetSymbol("bs", sc.B)
-	symBA := sc.B.AddFkSetSymbol("as", sc.A)
-	sc.la = sc.A.AddLinkCollection(symAB, symBA)
-	sc.lb = sc.B.AddLinkCollection(symBA, symAB)
+	if plain {
+		symAB := sc.A.AddFkSetSymbol("bs", sc.B)
+		symBA := sc.B.AddFkSetSymbol("as", sc.A)
+		sc.la = sc.A.AddLinkCollection(symAB, symBA)
+		sc.lb = sc.B.AddLinkCollection(symBA, symAB)
+	}
 	symRAB := sc.A.AddFkSetSymbol("rbs", sc.B)
 	symRBA := sc.B.AddFkSetSymbol("ras", sc.A)
 	sc.ra = sc.A.AddRefCountedLinkCollection(symRAB, symRBA)
@@ -97,6 +106,14 @@ func newLinkWorld() *linkScenario {
 func newLinkScenario(label string, aIds, bIds []string, withLink, withRc bool, maxCount int) *linkScenario {
 	sc := newLinkWorld()
 	sc.label, sc.aIds, sc.bIds, sc.withLink, sc.withRc, sc.maxCount = label, aIds, bIds, withLink, withRc, maxCount
+	sc.buildOps()
+	return sc
+}
+
+// newRcOnlyScenario: stores whose only link collection is the ref-counted one.
+func newRcOnlyScenario(label string, aIds, bIds []string, maxCount int) *linkScenario {
+	sc := newLinkWorldOpt(false)
+	sc.label, sc.aIds, sc.bIds, sc.withLink, sc.withRc, sc.maxCount = label, aIds, bIds, false, true, maxCount
 	sc.buildOps()
 	return sc
 }
@@ -475,29 +492,33 @@ func (sc *linkScenario) Invariant(tx *bbolt.Tx, mm explore.Model) error {
 				}
 			}
 			sort.Strings(want)
-			got := sd.lc.GetLinks(tx, id)
-			if strings.Join(got, ",") != strings.Join(want, ",") {
-				return fmt.Errorf("%s.GetLinks(%s) = %v, model says %v", sd.name, id, got, want)
-			}
-			var it []string
-			for c := sd.lc.IterateLinks(tx, []byte(id)); c.IsValid(); c.Next() {
-				it = append(it, string(c.Current()))
-			}
-			if strings.Join(it, ",") != strings.Join(want, ",") {
-				return fmt.Errorf("%s.IterateLinks(%s) = %q, model says %v", sd.name, id, it, want)
+			if sd.lc != nil {
+				got := sd.lc.GetLinks(tx, id)
+				if strings.Join(got, ",") != strings.Join(want, ",") {
+					return fmt.Errorf("%s.GetLinks(%s) = %v, model says %v", sd.name, id, got, want)
+				}
+				var it []string
+				for c := sd.lc.IterateLinks(tx, []byte(id)); c.IsValid(); c.Next() {
+					it = append(it, string(c.Current()))
+				}
+				if strings.Join(it, ",") != strings.Join(want, ",") {
+					return fmt.Errorf("%s.IterateLinks(%s) = %q, model says %v", sd.name, id, it, want)
+				}
 			}
 			for _, o := range append(append([]string{}, sd.others...), "zz-missing") {
 				wl := m.links[sd.key(id, o)]
-				if gl := sd.lc.IsLinked(tx, []byte(id), []byte(o)); gl != wl {
-					return fmt.Errorf("%s.IsLinked(%s,%s) = %v, model says %v", sd.name, id, o, gl, wl)
-				}
-				// the same through the store's generic related-entity API
-				linkField := map[string]string{"A": "bs", "B": "as"}[sd.name]
-				if gl := sd.store.IsEntityRelated(tx, id, linkField, o); gl != wl {
-					return fmt.Errorf("%s store.IsEntityRelated(%s,%s,%s) = %v, model says %v", sd.name, id, linkField, o, gl, wl)
-				}
-				if rel := sd.store.GetRelatedEntitiesIdList(tx, id, linkField); strings.Join(rel, ",") != strings.Join(want, ",") {
-					return fmt.Errorf("%s store.GetRelatedEntitiesIdList(%s,%s) = %v, model says %v", sd.name, id, linkField, rel, want)
+				if sd.lc != nil {
+					if gl := sd.lc.IsLinked(tx, []byte(id), []byte(o)); gl != wl {
+						return fmt.Errorf("%s.IsLinked(%s,%s) = %v, model says %v", sd.name, id, o, gl, wl)
+					}
+					// the same through the store's generic related-entity API
+					linkField := map[string]string{"A": "bs", "B": "as"}[sd.name]
+					if gl := sd.store.IsEntityRelated(tx, id, linkField, o); gl != wl {
+						return fmt.Errorf("%s store.IsEntityRelated(%s,%s,%s) = %v, model says %v", sd.name, id, linkField, o, gl, wl)
+					}
+					if rel := sd.store.GetRelatedEntitiesIdList(tx, id, linkField); strings.Join(rel, ",") != strings.Join(want, ",") {
+						return fmt.Errorf("%s store.GetRelatedEntitiesIdList(%s,%s) = %v, model says %v", sd.name, id, linkField, rel, want)
+					}
 				}
 				wc := m.rc[sd.key(id, o)]
 				c1, c2 := sd.rc.GetLinkCounts(tx, []byte(id), []byte(o))
@@ -665,6 +686,7 @@ func C05(tier string) int {
 	if tier == "quick" {
 		run(newLinkScenario("links 2x2", a2, b2, true, false, 0), 0)
 		run(newLinkScenario("ref-counted 2x2 counts<=2", a2, b2, false, true, 2), 0)
+		run(newRcOnlyScenario("ref-counted 2x2 counts<=2, stores without any plain link collection", a2, b2, 2), 0)
 		// two operations in ONE transaction (the second sees the first one's uncommitted writes)
 		for _, sc := range []*linkScenario{newLinkScenario("links 2x2, 2 ops per tx", a2, b2, true, false, 0), newLinkScenario("ref-counted 2x2 counts<=2, 2 ops per tx", a2, b2, false, true, 2)} {
 			runE1(rep, sc, explore.Config{Programs: c05PairPrograms(sc.Ops()), SkipRejectedPrefix: true})
@@ -677,6 +699,7 @@ func C05(tier string) int {
 		c05ChildOwned(rep)
 		run(newLinkScenario("links 2x3", a2, []string{"b1", "b1x", "b2"}, true, false, 0), 0)
 		run(newLinkScenario("ref-counted 2x2 counts<=3", a2, b2, false, true, 3), 0)
+		run(newRcOnlyScenario("ref-counted 2x2 counts<=3, stores without any plain link collection", a2, b2, 3), 0)
 		run(newLinkScenario("links+ref-counted 2x2 counts<=2", a2, b2, true, true, 2), 12_000_000)
 		for _, sc := range []*linkScenario{newLinkScenario("links 2x2, 2 ops per tx (all pairs)", a2, b2, true, false, 0), newLinkScenario("ref-counted 2x2 counts<=2, 2 ops per tx (all pairs)", a2, b2, false, true, 2)} {
 			runE1(rep, sc, explore.Config{Programs: explore.Pairs(len(sc.Ops())), SkipRejectedPrefix: true})
